@@ -167,6 +167,7 @@ type Obligation struct {
 	Ghost  string
 	x      *Exec
 	NoRetry bool
+	Cubes  []Term // branch conditions of the unit's own top-level ifs, defined before this obligation (case-split candidates)
 }
 
 type Exec struct {
@@ -205,6 +206,12 @@ type Exec struct {
 	lemmaMode bool
 	initMode bool
 	callSeq  int
+	branches []branchCond
+}
+
+type branchCond struct {
+	t    Term
+	upto int
 }
 
 func newExec(e *Engine, unit string, props []string) *Exec {
@@ -259,6 +266,11 @@ func (x *Exec) oblige(fr *Frame, kind, snippet string, st *State, goal Term, pos
 		name = fmt.Sprintf("%s#%d", base, n)
 	}
 	o := &Obligation{Name: name, Kind: kind, Func: fname, Unit: x.unit, Upto: len(x.vc.asserts), Path: st.reach, Goal: goal, Pos: posStr(x.eng.Fset, pos), Props: x.props, vc: x.vc, Cover: kind == "cover", x: x, Ghost: x.curGhost}
+	for _, bc := range x.branches {
+		if bc.upto <= o.Upto && len(o.Cubes) < 4 {
+			o.Cubes = append(o.Cubes, bc.t)
+		}
+	}
 	x.obls = append(x.obls, o)
 }
 
